@@ -13,7 +13,8 @@ EXTENDS RecStore, Json
 CONSTANTS ChunkIds,     \* subset of {"a","b","n","t","o","s","f","r"}
           Hdrs,         \* subset of {"none","h1","h2"}
           Delims,       \* subset of {"none","c","t","s"}
-          Modes,        \* subset of WriteModes
+          Modes,        \* subset of AllModes
+          Sels,         \* subset of ReadSels: what reads through a handle ask for
           MaxDepth,     \* histories of at most this many actions
           MaxRows,      \* no file grows beyond this many rows
           KeepHist,     \* record the history (export runs)
@@ -24,8 +25,15 @@ CONSTANTS ChunkIds,     \* subset of {"a","b","n","t","o","s","f","r"}
 VARIABLES hist,        \* the events taken so far (KeepHist), else one 0 per event
           cat          \* cat[p]: the concatenation of the chunks of all accepted writes to p, in order, since the
                        \* last event that replaced it - computed from the *calls* and their outcomes only
-vars == <<files, handles, res, hist, cat>>
-View == rsvars
+          ,obj         \* obj[h]: what the *implementation's* handle object may still carry from its past, abstracted:
+                       \*   held - the (delim, descr) of the last file it held a header of (wrote the first chunk of, or
+                       \*          attached to with 'r' / 'r+'), surviving close and re-open;
+                       \*   pos  - where its stream was left since the last open: "start" | "mid" (after a partial read) |
+                       \*          "end" (after a full read or a write).
+                       \* The property-level actions never read it (nothing of a handle's past may matter); it only keeps
+                       \* apart, for the transition tour, histories the implementation could tell apart.
+vars == <<files, handles, res, hist, cat, obj>>
+View == <<rsvars, obj>>
 
 \* ---- the chunk catalogue: base "D" is the file's structure in most histories ------
 \*   a, b : compatible (1 and 3 rows)          n : a field renamed        t : a field's type changed
@@ -43,7 +51,7 @@ ChunkOf(id) ==
 NoChunk == [descr |-> NoDescr, rows |-> <<>>]
 
 \* `err` is the outcome the specification chose (the harness ignores it: it records the real one)
-Ev(o, h, p, m, dl, c, hd) == [op |-> o, h |-> h, p |-> p, mode |-> m, delim |-> dl, chunk |-> c, hdr |-> hd, err |-> "none"]
+Ev(o, h, p, m, dl, c, hd) == [op |-> o, h |-> h, p |-> p, mode |-> m, delim |-> dl, chunk |-> c, hdr |-> hd, sel |-> "all", err |-> "none"]
 \* The depth bound is part of the state (Len(hist); without KeepHist the events are forgotten, their number is kept):
 \* a bound on TLCGet("level") would make the explored set depend on the workers' schedule once states merge.  The step
 \* is disabled at MaxDepth, here and not in Next, so that Next stays a plain disjunction of named actions, which is what
@@ -58,20 +66,33 @@ CatStep(prev, e, out) ==
            [] e.op = "open" /\ e.mode \in {"w", "w+"}     -> <<>>                \* a truncating open
            [] e.op \in {"hwrite", "append"}               -> prev \o e.chunk.rows
            [] OTHER                                       -> prev
+NoObj == [held |-> <<"none", NoDescr>>, pos |-> "start"]
+ObjStep(o, e) ==
+    CASE e.op = "open"   -> [held |-> IF handles'[e.h].open /\ ~handles'[e.h].fresh
+                                      THEN <<files[e.p].delim, files[e.p].descr>> ELSE o.held,
+                             pos  |-> "start"]
+      [] e.op = "hwrite" -> IF res'.err # "none" THEN o
+                            ELSE [held |-> IF handles[e.h].fresh THEN <<files'[e.p].delim, files'[e.p].descr>> ELSE o.held,
+                                  pos  |-> "end"]
+      [] e.op = "hread"  -> [o EXCEPT !.pos = IF e.sel = "all" THEN "end" ELSE "mid"]
+      [] OTHER           -> o
 Log(e) == /\ Len(hist) < MaxDepth
           /\ hist' = IF KeepHist THEN Append(hist, [e EXCEPT !.err = Outcome]) ELSE Append(hist, 0)
           /\ cat' = [cat EXCEPT ![e.p] = CatStep(@, e, Outcome)]
+          /\ obj' = IF e.h = 0 THEN obj ELSE [obj EXCEPT ![e.h] = ObjStep(@, e)]
 
-Init == RSInit /\ hist = <<>> /\ cat = [p \in Paths |-> <<>>]
+Init == RSInit /\ hist = <<>> /\ cat = [p \in Paths |-> <<>>] /\ obj = [h \in Handles |-> NoObj]
 
 \* arguments that cannot matter are not enumerated (delimiter / header of a write that is not the first)
+\* (re-)open: on a closed object, or on one that is still open (it closes what it has open first)
 MOpen == "open" \in Acts /\ \E h \in Handles, p \in Paths, m \in Modes :
-            \E dl \in (IF m = "r+" /\ files[p].st = "ok" THEN {"none"} ELSE Delims) :
+            \E dl \in (IF m \in {"r", "r+"} /\ files[p].st = "ok" THEN {"none"} ELSE Delims) :
                Open(h, p, m, dl) /\ Log(Ev("open", h, p, m, dl, NoChunk, "none"))
 MHWrite == "hwrite" \in Acts /\ \E h \in Handles, id \in ChunkIds :
             \E hd \in (IF handles[h].fresh THEN Hdrs ELSE {"none"}) :
                HWrite(h, ChunkOf(id), hd) /\ Log(Ev("hwrite", h, handles[h].path, "none", "none", ChunkOf(id), hd))
-MHRead == "hread" \in Acts /\ \E h \in Handles : HRead(h) /\ Log(Ev("hread", h, handles[h].path, "none", "none", NoChunk, "none"))
+MHRead == "hread" \in Acts /\ \E h \in Handles, sel \in Sels :
+            HReadSel(h, sel) /\ Log([Ev("hread", h, handles[h].path, "none", "none", NoChunk, "none") EXCEPT !.sel = sel])
 MHClose == "hclose" \in Acts /\ \E h \in Handles : HClose(h) /\ Log(Ev("hclose", h, handles[h].path, "none", "none", NoChunk, "none"))
 MCreate == "create" \in Acts /\ \E p \in Paths, id \in ChunkIds, hd \in Hdrs, dl \in Delims :
                Create(p, ChunkOf(id), hd, dl) /\ Log(Ev("write", 0, p, "none", dl, ChunkOf(id), hd))
@@ -112,6 +133,7 @@ Fold(p, k) ==
          ELSE CASE e.err = "rejected_truncated"            -> <<>>
                 [] e.op = "write"                          -> e.chunk.rows
                 [] e.op = "open" /\ e.mode \in {"w", "w+"} -> <<>>
+                [] e.op = "open"                          -> prev
                 [] e.op \in {"hwrite", "append"}           -> prev \o e.chunk.rows
                 [] OTHER                                   -> prev
 ConcatHistInv == KeepHist => \A p \in Paths : files[p].rows = Fold(p, Len(hist)) /\ cat[p] = Fold(p, Len(hist))
